@@ -11,34 +11,16 @@ import (
 const b58alpha = "123456789ABCDEFGHJKLMNPQRSTUVWXYZabcdefghijkmnopqrstuvwxyz"
 const bechCharset = "qpzry9x8gf2tvdw0s3jn54khce6mua7l"
 
+// error values of bech32 are unnamed fmt.Errorf strings: which message is returned is not part of any property, so
+// observations only say "err" (message texts are never compared)
 func cbObs(b []byte, err error) string {
 	if err != nil {
-		if strings.Contains(err.Error(), "bit groups") {
-			return "err:groups"
-		}
-		return "err:incomplete"
+		return "err"
 	}
 	return "ok:" + hx(b)
 }
 
-func bechErr(err error) string {
-	m := err.Error()
-	switch {
-	case strings.Contains(m, "string length"):
-		return "err:length"
-	case strings.Contains(m, "invalid character in string"):
-		return "err:char"
-	case strings.Contains(m, "not all lowercase"):
-		return "err:case"
-	case strings.Contains(m, "invalid index of 1"):
-		return "err:sep"
-	case strings.Contains(m, "failed converting data"):
-		return "err:charset"
-	case strings.Contains(m, "checksum failed"):
-		return "err:checksum"
-	}
-	return "err:other"
-}
+func bechErr(err error) string { return "err" }
 
 // withSpare returns a copy of b with the given spare capacity filled with canary bytes.
 func withSpare(b []byte, spare int) []byte {
